@@ -105,6 +105,9 @@ impl Vm {
     }
 
     pub fn prepare_eval(&mut self, cell: &Cell) -> Result<(), Error> {
+        // the stack trace belongs to one evaluation: a form rejected by the compiler must not
+        // report the trace a failed earlier evaluation left behind
+        self.last_stacktrace = None;
         let lambda = self.compile_runnable(cell)?;
         trace!("entry: \n{}", self.decompile_text(&lambda));
         let lambda = self.heap.put(lambda);
